@@ -12,15 +12,18 @@
 namespace c09 {
 using namespace vg;
 
+// true with probability ~num/256 and FALSE when the case bytes have run out (Case::chance() is true then): rare = not the simplest choice
+static inline bool rare(Case &c, unsigned num) { return num && c.byte() > 255u - num; }
+
 static inline uint32_t dict_of(uint8_t b) { if (b >= 40) return UINT32_MAX; return (2u | (b & 1u)) << (b / 2 + 11); }
 
 // declared dictionary byte: same as previous Block / 4 KiB..8 MiB / 12..64 MiB / (only in "big" files) 96 MiB..4 GiB-1
 static inline uint8_t draw_dict_byte(Case &c, bool have_prev, uint8_t prev, bool allow_big, uint8_t maxb) {
 	uint8_t k = c.byte(), b;
 	if (have_prev && k < 90) b = prev;
-	else if (k < 226) b = (uint8_t)c.u(23);
-	else if (k < 246 || !allow_big) b = (uint8_t)(23 + c.u(6));
-	else b = (uint8_t)(29 + c.u(12));
+	else if (allow_big && k >= 200) b = (uint8_t)(29 + c.u(12));   // 96 MiB .. 4 GiB-1: only in the few % of files flagged big (ASan pays ~0.2 s per GiB)
+	else if (k < 248) b = (uint8_t)c.u(23);                      // 4 KiB .. 8 MiB
+	else b = (uint8_t)(23 + c.u(6));                             // 12 .. 64 MiB
 	return b > maxb ? maxb : b;
 }
 
@@ -68,11 +71,15 @@ static inline void declared_chain(const Blk &b, DeclChain &d) {
 	d.f[n].id = LZMA_VLI_UNKNOWN; d.f[n].options = NULL;
 }
 
-struct BuildOpts { uint8_t maxb = 40; unsigned max_blocks = 8; bool want_big_payload = false; bool multi_stream = true; };
+struct BuildOpts { uint8_t maxb = 40; unsigned max_blocks = 8; unsigned big_payload_chance = 8; bool multi_stream = true;
+	// "uniform": what a threaded encoder writes - 4..max_blocks stored Blocks of one size (32..160 KiB) with sizes in the headers, one
+	// dictionary size for most of them and a bigger one for a few (so that the threaded decoder's caches come under pressure)
+	bool uniform = false; };
 
 static inline void build_xz(Case &c, XzFile &F, const BuildOpts &bo) {
-	unsigned ns = (bo.multi_stream && c.chance(36)) ? 2 + c.u(2) : 1;
-	F.big = c.chance(12);
+	unsigned ns = (bo.multi_stream && rare(c, 36)) ? 2 + c.u(2) : 1;
+	F.big = rare(c, 12);
+	unsigned big_payloads = rare(c, bo.big_payload_chance) ? 1 + c.u(3) : 0;   // Blocks of 64..256 KiB: few (cost), they matter for the threaded decoder's buffers
 	Rng fill(c.u16() + 1u);
 	uint8_t prev = 0; bool have_prev = false;
 	F.streams = ns; F.desc = "\"streams\":" + std::to_string(ns) + ",\"blocks\":[";
@@ -85,7 +92,9 @@ static inline void build_xz(Case &c, XzFile &F, const BuildOpts &bo) {
 		if (lzma_stream_header_encode(&sf, &F.bytes[at]) != LZMA_OK) harness_bug("c09: stream header");
 		lzma_index *idx = lzma_index_init(NULL); if (!idx) harness_bug("c09: index_init");
 		unsigned nb = 1 + c.small(bo.max_blocks - 1); if (nb > bo.max_blocks) nb = bo.max_blocks;
-		if (c.chance(8)) nb = 0;
+		if (rare(c, 8)) nb = 0;
+		uint32_t uni_plain = 0; uint8_t uni_dict = 0;
+		if (bo.uniform) { nb = 4 + c.u(bo.max_blocks - 3); uni_plain = (32u << 10) + c.u32() % (128u << 10); uni_dict = (uint8_t)c.u(9); }
 		for (unsigned k = 0; k < nb; ++k) {
 			Blk B;
 			B.dict_byte = draw_dict_byte(c, have_prev, prev, F.big, bo.maxb); prev = B.dict_byte; have_prev = true;
@@ -93,10 +102,13 @@ static inline void build_xz(Case &c, XzFile &F, const BuildOpts &bo) {
 			B.nnon = fb < 190 ? 0 : (fb < 235 ? 1 : (fb < 250 ? 2 : 3));
 			for (unsigned i = 0; i < B.nnon; ++i) { B.non_id[i] = non_ids[c.u(6)]; B.delta_dist[i] = 1 + c.u(256); }
 			uint8_t lb = c.byte();
-			if (lb < (bo.want_big_payload ? 110 : 14)) B.plain = (96u << 10) + c.u32() % (416u << 10); else B.plain = c.len_exp(1u << 16);
+			// equal-sized Blocks are what the threaded encoder writes (and what lets the threaded decoder's buffer cache fill up)
+			if (!F.blk.empty() && lb >= 200) B.plain = F.blk.back().plain;
+			else if (big_payloads && lb < 128) { --big_payloads; B.plain = (64u << 10) + c.u32() % (192u << 10); } else B.plain = c.len_exp(1u << 13);
 			bool rnd = c.flag();
-			B.sizes = !c.chance(36);
-			B.stored = B.nnon == 0 && !c.chance(56);
+			B.sizes = !rare(c, 36);
+			B.stored = B.nnon == 0 && !rare(c, 56);
+			if (bo.uniform) { B.plain = uni_plain; B.nnon = 0; B.sizes = true; B.stored = true; B.dict_byte = (uint8_t)std::min<unsigned>(bo.maxb, uni_dict + ((fb >= 176 && k >= 3) ? 8 + lb % 10 : 0)); prev = B.dict_byte; }
 			plain.resize(B.plain);
 			if (rnd) { for (size_t q = 0; q < plain.size(); q += 8) { uint64_t v = fill.next(); memcpy(&plain[q], &v, std::min<size_t>(8, plain.size() - q)); } }
 			else if (!plain.empty()) memset(plain.data(), 'a' + (int)(k % 26), plain.size());
@@ -116,6 +128,8 @@ static inline void build_xz(Case &c, XzFile &F, const BuildOpts &bo) {
 			F.bytes.resize(op);
 			B.comp = b.compressed_size;
 			uint32_t hs = b.header_size;
+			// lzma_block_buffer_encode() falls back to stored chunks with a plain LZMA2 chain when the data is incompressible
+			if (B.nnon && (F.bytes[bat + 1] & 3u) == 0) { B.nnon = 0; fl[0].id = LZMA_FILTER_LZMA2; fl[0].options = &lz; fl[1].id = LZMA_VLI_UNKNOWN; fl[1].options = NULL; B.stored = true; }
 			if (!B.sizes) {
 				uint8_t tmp[LZMA_BLOCK_HEADER_SIZE_MAX];
 				b.compressed_size = LZMA_VLI_UNKNOWN; b.uncompressed_size = LZMA_VLI_UNKNOWN;
@@ -160,7 +174,7 @@ static inline void build_alone(Case &c, OneFile &F, bool picky_form) {
 	drv::Result R = drv::run(&s, in.data(), in.size(), drv::Schedule()); lzma_end(&s);
 	if (R.ret != LZMA_STREAM_END || R.out.size() < 13) harness_bug("c09: alone encode");
 	F.bytes.swap(R.out);
-	F.big = c.chance(12);
+	F.big = rare(c, 12);
 	uint32_t d; uint8_t k = c.byte();
 	if (picky_form || k < 170) { uint8_t b = draw_dict_byte(c, false, 0, F.big, 40); d = dict_of(b); }
 	else if (k < 235) d = 4096 + c.u32() % (16u << 20);
@@ -173,7 +187,7 @@ static inline void build_alone(Case &c, OneFile &F, bool picky_form) {
 
 // .lz: members assembled by hand around a raw LZMA1 stream (lc=3 lp=0 pb=2, end marker), trailer CRC32 from ref/crc.h
 static inline void build_lzip(Case &c, OneFile &F) {
-	unsigned nm = c.chance(60) ? 2 + c.u(2) : 1; F.members = nm; F.big = c.chance(12);
+	unsigned nm = rare(c, 60) ? 2 + c.u(2) : 1; F.members = nm; F.big = rare(c, 12);
 	F.desc = "\"members\":[";
 	for (unsigned m = 0; m < nm; ++m) {
 		lzma_options_lzma lz; if (lzma_lzma_preset(&lz, 0)) harness_bug("c09: preset"); lz.dict_size = 4096; lz.nice_len = 16; lz.depth = 1; lz.lc = 3; lz.lp = 0; lz.pb = 2;
